@@ -37,20 +37,22 @@ def make_loss(cfg):
     u = mk(cfg["upolys"], eq_type)
     res = cfg["res"]
 
-    def residual(z, uval):
-        return jnp.stack([poly_jax(q, z) + a * uval[0] for q, a in res])
+    # the equation reads the parameter "a" (its value is 1, so the residual is q + a_coef * u): the dynamic term must be
+    # computed with the GIVEN parameters, whatever rows an observation part carries for that key
+    def residual(z, uval, params):
+        return jnp.stack([poly_jax(q, z) + a * uval[0] * params.eq_params["a"] for q, a in res])
     if kind == "ode":
         class Eq(jinns.loss.ODE):
             def equation(self, t, u, params):
-                return residual(jnp.atleast_1d(t), u(t, params))
+                return residual(jnp.atleast_1d(t), u(t, params), params)
     elif kind == "statio":
         class Eq(jinns.loss.PDEStatio):
             def equation(self, x, u, params):
-                return residual(x, u(x, params))
+                return residual(x, u(x, params), params)
     else:
         class Eq(jinns.loss.PDENonStatio):
             def equation(self, t, x, u, params):
-                return residual(jnp.concatenate([t, x]), u(t, x, params))
+                return residual(jnp.concatenate([t, x]), u(t, x, params), params)
     P = Params(nn_params=u.init_params(), eq_params={"a": jnp.array(1.0)})
     W = lambda w: (jnp.array(w) if isinstance(w, (list, tuple)) else float(w))
     kw = {}
@@ -87,7 +89,8 @@ def make_batch(cfg):
     pts = jnp.array(cfg["batch"])
     obs = None
     if cfg.get("obs"):
-        obs = {"pinn_in": jnp.array(cfg["obs"]["inputs"]), "val": jnp.array(cfg["obs"]["vals"]), "eq_params": {}}
+        eqp = {"a": jnp.array(cfg["obs"]["arows"])[:, None]} if cfg["obs"].get("arows") else {}
+        obs = {"pinn_in": jnp.array(cfg["obs"]["inputs"]), "val": jnp.array(cfg["obs"]["vals"]), "eq_params": eqp}
     kind = cfg["kind"]
     if kind == "ode":
         return ODEBatch(temporal_batch=pts[:, 0], obs_batch_dict=obs)
